@@ -142,6 +142,8 @@ def run(repo, chk, tier):
         chk.ok('C07.1d', 'R2', fn.module.relpath, f'writers of {sorted(STORES)}: prior_combinations_sample only', f'{sum(len(mm.funcs) for mm in repo.modules.values())} functions scanned', inspected=sum(len(mm.funcs) for mm in repo.modules.values()))
 
     call_sites(repo, chk, fn)
+    from .c06 import cap_writers
+    cap_writers(repo, chk)
     export(repo, chk)
     duplicate_free(repo, chk)
 
